@@ -1301,7 +1301,7 @@ func (i *BigInt) BitwiseAndNotInt(other Value) Value {
 
 func (i *BigInt) BitwiseAndNotSmallInt(other SmallInt) Value {
 	oBigInt := big.NewInt(int64(other))
-	oBigInt.And(i.ToGoBigInt(), oBigInt)
+	oBigInt.AndNot(i.ToGoBigInt(), oBigInt)
 	result := ToElkBigInt(oBigInt)
 	if result.IsSmallInt() {
 		return result.ToSmallInt().ToValue()
@@ -1310,7 +1310,7 @@ func (i *BigInt) BitwiseAndNotSmallInt(other SmallInt) Value {
 }
 
 func (i *BigInt) BitwiseAndNotBigInt(other *BigInt) Value {
-	result := ToElkBigInt((&big.Int{}).And(i.ToGoBigInt(), other.ToGoBigInt()))
+	result := ToElkBigInt((&big.Int{}).AndNot(i.ToGoBigInt(), other.ToGoBigInt()))
 	if result.IsSmallInt() {
 		return result.ToSmallInt().ToValue()
 	}
